@@ -22,6 +22,13 @@ from .. import flow as Fl
 from .. import mainmodel as M
 from ..compdb import AnalysisBroken
 
+
+def _rel(path):
+    import os
+    from ..compdb import REPO
+    return os.path.relpath(path, REPO)
+
+
 LEVEL = "other"
 
 
@@ -86,12 +93,12 @@ def run(chk, prog):
     chk.check(ok, "R1", hf.where, "the handler's whole body is `Display::abort = true;` (calls: %d, assignments: %d)" % (len(calls), len(asg)), "handler:body")
     g = prog.globals.get("vfps::Display::abort")
     A.require(g is not None, "Display::abort not found")
-    chk.check("volatile" in g.get("type", "") and "bool" in g.get("type", ""), "R1", "%s:%d" % (g["file"].replace("/repo/", ""), g["line"]),
+    chk.check("volatile" in g.get("type", "") and "bool" in g.get("type", ""), "R1", "%s:%d" % (_rel(g["file"]), g["line"]),
               "the flag is a volatile bool (%s)" % g.get("type"), "flag:type:%s" % g.get("type"))
     iv = A.strip(g["init"]) if "init" in g else None
     if iv is not None and iv.get("k") == "InitListExpr" and len(iv.get("inits", [])) == 1:
         iv = A.strip(iv["inits"][0])          # brace initialisation: abort{false}
-    chk.check(iv is not None and iv.get("value") is False, "R1", "%s:%d" % (g["file"].replace("/repo/", ""), g["line"]), "the flag starts as false", "flag:init")
+    chk.check(iv is not None and iv.get("value") is False, "R1", "%s:%d" % (_rel(g["file"]), g["line"]), "the flag starts as false", "flag:init")
     # ---- R2 -------------------------------------------------------------------------------------
     writers, readers = [], []
     for f in prog.functions.values():
@@ -125,7 +132,8 @@ def run(chk, prog):
     chk.check(ok, "R2", A.loc(mainf, loop), "the loop continues only while the flag is false (`... && !Display::abort`)", "loop:condition-shape")
     idx = A.index(mainf)
     for x in after:
-        enc = A.enclosing(idx, x, {"IfStmt"})
+        # the reader selects between the two final messages: `if (abort) A else B` or `print(abort ? A : B)`
+        enc = A.enclosing(idx, x, {"IfStmt", "ConditionalOperator"})
         ok = bool(enc) and x["id"] in {y["id"] for y in A.walk(enc[0]["cond"])} and x["line"] > loop["eline"]
         msgs = [y["value"] for y in A.walk(enc[0]) if y["k"] == "StringLiteral"] if enc else []
         chk.check(ok and "Aborted." in msgs and "Finished." in msgs, "R2", A.loc(mainf, x), "the only other reader selects the Aborted./Finished. message after the loop (%s)" % msgs,
